@@ -1,7 +1,7 @@
 //! defer: the operation x operand-type x host-mode matrix runner (C08, C10).
 //!
 //! Case line:   <impl> <host> <Instruction> <left rep> <right rep>
-//!   impl  S = SimpleGarnishData (host through set_op_handler / auxiliary data)
+//!   impl  S = SimpleGarnishData (host through set_op_handler / auxiliary data); C = the same after clone_with_aux_without_data
 //!         B = BasicGarnishData  (host through a recording BasicDataCompanion)
 //!   host  A = absent (default handler / NoOpCompanion), D = declining, Y = accepting
 //!   rep   <TypeName>.<k>  (Type.<TypeName> for type values), or - for "no operand"
@@ -658,6 +658,16 @@ fn main() {
                     d.auxiliary_data_mut().accept = h == "Y";
                 }
                 run_case(d, instr, p[3], p[4])
+            }
+            // a context derived from a configured one (clone_with_aux_without_data): same host, same behaviour
+            ("C", h) if h == "D" || h == "Y" => {
+                let mut d0 = Simple::new_custom();
+                d0.set_op_handler(simple_handler);
+                d0.auxiliary_data_mut().accept = h == "Y";
+                match d0.clone_with_aux_without_data() {
+                    Ok(d) => run_case(d, instr, p[3], p[4]),
+                    Err(_) => "UNBUILDABLE:clone\t-".to_string(),
+                }
             }
             ("B", "A") => match BasicGarnishData::<(), NoOpCompanion>::new(NoOpCompanion::new()) {
                 Ok(d) => run_case(d, instr, p[3], p[4]),
